@@ -407,3 +407,100 @@ def held_at(body, acquire_site, site):
         if body.can_reach(acquire_site.bb, r.bb) and body.can_reach(r.bb, site.bb):
             return False, r
     return True, None
+
+
+# ------------------------------------------------------------------ K1 guard tables
+
+class G:
+    """A guard: an edge set of the CFG defined by what the switch decides on."""
+
+    def __init__(self, name, call=None, labels=None, field=None, cmp=None, cmp_want=None, recv=None, pred=None, opred=None):
+        self.name = name
+        self.call = call
+        self.labels = set(labels) if labels else set(PASS_LABELS)
+        self.field = field
+        self.cmp = cmp            # (patA, patB): comparison between values whose descriptions contain these
+        self.cmp_want = set(cmp_want) if cmp_want else {'Equal'}
+        self.recv = recv
+        self.pred = pred
+        self.opred = opred
+
+    def edges(self, body):
+        from .tables import order_edges, describe
+        out = []
+        sws = []
+        for sbb in body.switches():
+            o, edges = body.switch_edges(sbb)
+            if self.call is not None:
+                c = origin_is_call(o, self.call)
+                if c is None:
+                    continue
+                if self.recv is not None and self.recv not in arg_path(c.site, 0):
+                    continue
+                if self.pred is not None and not self.pred(c):
+                    continue
+                sws.append(sbb)
+                for tb, labs in edges.items():
+                    if labs and labs <= self.labels:
+                        out.append((sbb, tb))
+            elif self.opred is not None:
+                if not self.opred(o):
+                    continue
+                sws.append(sbb)
+                for tb, labs in edges.items():
+                    if labs and labs <= self.labels:
+                        out.append((sbb, tb))
+            elif self.field is not None:
+                if not o.path().endswith('.' + self.field):
+                    continue
+                sws.append(sbb)
+                for tb, labs in edges.items():
+                    if labs and labs <= self.labels:
+                        out.append((sbb, tb))
+            elif self.cmp is not None:
+                oe = order_edges(o, edges)
+                if oe is None:
+                    continue
+                var, ed = oe
+                if not all(p in var for p in self.cmp):
+                    continue
+                sws.append(sbb)
+                for tb, labs in ed.items():
+                    if labs and labs <= self.cmp_want:
+                        out.append((sbb, tb))
+        return out, sws
+
+
+def require_guards(ctx, rule, body, sinks, guards, what, floor=1):
+    """Every sink site is reachable only through a pass edge of every guard."""
+    n = 0
+    for g in guards:
+        edges, sws = g.edges(body)
+        if not sws:
+            ctx.bad(rule, '%s:guard-missing:%s' % (body.nid, g.name),
+                    'guard `%s` not found in %s: no branch decides on it any more (%s)' % (g.name, body.nid, what))
+            continue
+        for s in sinks:
+            n += 1
+            ctx.call_sites += 1
+            p = body.path_avoiding(s.bb, avoid_edges=edges)
+            nm = s.callee.split('::')[-1] if s.is_term and s.term['t'] == 'call' else 'site'
+            ctx.check(p is None, rule, '%s:%s<=%s' % (body.nid, nm, g.name),
+                      '%s at %s is reachable only through the passing edge of `%s`' % (nm, s.loc(), g.name),
+                      '%s at %s can be reached without passing `%s` (%s)' % (nm, s.loc(), g.name, what),
+                      loc=s.loc(), path=fmt_path(body, p))
+    return n
+
+
+def arg_desc(site, i):
+    from .tables import describe
+    return describe(site.body.origin_of_operand(site.term['args'][i]))
+
+
+def agg_sites(body, adt_pat, variant=None):
+    out = []
+    for site, s in body.stmts():
+        if s['s'] == 'assign' and s['rv']['r'] == 'agg' and s['rv'].get('kind') == 'adt' \
+                and path_matches(norm(s['rv']['adt']), adt_pat) and (variant is None or s['rv'].get('variant') == variant):
+            out.append(site)
+    return out
